@@ -198,6 +198,8 @@ def run_property(prop, tier, seed):
     repo = Repo()
     eng = Engine(repo, R)
     eng.frame_report = {}
+    eng.dead_under_contract = {}
+    eng.executed_nodes = set()
     problems = R.check_attached(repo)
     if problems:
         for p in problems:
@@ -320,6 +322,13 @@ def run_property(prop, tier, seed):
         print(f'CHECKER-ERROR {o.id}: {o.raw}')
     for r in out_of_reach:
         print(f'OUT-OF-REACH {r["function"]}: {r["reason"]}')
+    if os.environ.get('PYVC_DEAD'):
+        for t, v in sorted(eng.dead_under_contract.items()):
+            if any(v.values()) and all(v.values()):
+                # unreached in EVERY parameter alternative
+                common = set.intersection(*[set(x) for x in v.values()])
+                if common:
+                    print(f'DEAD-UNDER-CONTRACT {t}: lines {sorted(common)}')
     if os.environ.get('PYVC_LIST'):
         with open(os.environ['PYVC_LIST'], 'w') as fh:
             for o in obls:
@@ -381,6 +390,11 @@ def run_property(prop, tier, seed):
             'frame': {'roots_checked_to_modify_only_what_their_contract_declares': len(eng.frame_report.get('checked', {})),
                       'frame_obligations_needing_the_solver': sum(eng.frame_report.get('checked', {}).values()),
                       'top_level_roots_without_frame_check': sorted(eng.frame_report.get('top_level_not_checked', []))},
+            # vacuity guard: lines of a verified function that no feasible path reached in ANY of its parameter alternatives
+            # (dead under the contract's preconditions and the callees' contracts: clauses about them would be vacuous)
+            'statements_no_feasible_path_reaches_under_the_contract': {
+                t: sorted(set.intersection(*[set(x) for x in v.values()])) for t, v in sorted(eng.dead_under_contract.items())
+                if v and set.intersection(*[set(x) for x in v.values()])},
             'racy_reads': sorted(f'{a}:{b}@{c}' for a, b, c in eng.racy_reads),
             'vacuity': {'covers': sum(1 for o in obls if o.kind == 'cover'),
                         'must_fail_twins': sum(1 for o in obls if o.kind == 'twin'),
